@@ -137,7 +137,7 @@ class UnitBuild:
             body, counts = self.rewrite_body(item.body, cfg)
             body = self.inject(body, spec)
             text = f"{spec.attrs}{vis}{sig}\n{contract}{body}\n"
-        out_impl = spec.as_impl or impl
+        out_impl = None if spec.as_impl == "-" else (spec.as_impl or impl)
         if mode == "verify" and cfg.get("split"):
             return self.emit_split(rel, key, item, sig, spec, body, counts, cfg, out_impl)
         hdr = f"// @@FN {mode} {key}  <- {rel}:{item.line}\n"
@@ -287,10 +287,13 @@ class UnitBuild:
         run("R7", RW.r7_smallvec)
         if cfg.get("field_store"):
             run("R1b", RW.r1b_field_store)
+        if cfg.get("compound_index_assign"):
+            run("R1c", RW.r1c_compound_index_assign)
         run("R5", RW.r5_debug_assert)
         run("R6", RW.r6_panics)
         if "slice_scrutinee" in cfg:
             run("R3", RW.r3_slice_patterns, cfg["slice_scrutinee"])
+        run("R15", RW.r15_const_filter)
         if cfg.get("let_chains"):
             run("R13", RW.r13_let_chains)
         if cfg.get("for_each_child"):
